@@ -29,7 +29,7 @@ def untyped_iri(i):
 ODD_SCHEME_IRIS = ["urn:x:u0", "mailto:u1@ex.org", "tel:+34985000000"]
 
 
-LIT_KINDS = ["str", "lang", "lang2", "integer", "int", "date", "decimal", "custom", "spaced", "qlang", "qtyped"]
+LIT_KINDS = ["str", "lang", "lang2", "integer", "int", "date", "decimal", "custom", "spaced", "qlang", "qtyped", "ulang"]
 
 
 def make_lit(kind, k):
@@ -55,6 +55,9 @@ def make_lit(kind, k):
     if kind == "qlang":
         # language-tagged / typed literals with quotes inside: the kind is read after the CLOSING quote, not after an inner one
         return ["lit", ['she said "hi"', '"', 'a "b" c', '""x'][k], LANGSTRING, "en"]
+    if kind == "ulang":
+        # characters that str.splitlines() treats as line ends but N-Triples allows inside a literal (only LF and CR end a line)
+        return ["lit", ["line\u2028sep", "next\u0085line", "para\u2029graph", "two\u2028breaks\u2028here"][k], LANGSTRING, "en"]
     if kind == "qtyped":
         return ["lit", ['5" disk', '"q"', 'in "quotes" twice "x"', '\\"'][k], CUSTOM_DT, ""]
     if kind == "spaced":
@@ -254,7 +257,7 @@ def consistent(draw, max_classes=3, max_inst=4, max_props=3, bnode_classes=False
         for n in inst[j]:
             triples.append([n, RDF_TYPE, classes[j]])
     pid = 0
-    dts = ["str", "lang", "lang2", "integer", "date", "custom"]     # lang / lang2 share lexical forms under different tags
+    dts = ["str", "lang", "lang2", "integer", "date", "custom", "ulang"]     # lang / lang2 share lexical forms under different tags
     for j in range(n_classes):
         for _ in range(draw(st.integers(0, max_props))):
             p = prop_iri(pid)
